@@ -219,6 +219,16 @@ func (e *engine) runC30() {
 		}
 		pcs = append(pcs, pc{b, nil}, pc{b, []byte{0}}, pc{b, b})
 	}
+	// long protocol IDs: splits of one string whose pid lengths differ by 128 / 256 / 512 (a
+	// truncated or single-byte length prefix would make them collide)
+	for _, total := range []int{300, 600, 1100} {
+		long := e.rng.Bytes(total)
+		for _, k := range []int{1, 5, 9, 127, 128, 129, 133, 137, 255, 256, 257, 261, 265, 512, 517, 521} {
+			if k < total {
+				pcs = append(pcs, pc{long[:k], long[k:]})
+			}
+		}
+	}
 	for i := 0; i < 30*e.a.Scale; i++ {
 		pcs = append(pcs, pc{e.rng.Bytes(1 + e.rng.Intn(5)), e.rng.Bytes(e.rng.Intn(5))})
 	}
